@@ -84,13 +84,22 @@ class NetSeam:
         return s
 
     def install(self):
+        # the seam is urlopen, however the module under test refers to it (bound name or urllib.request.urlopen)
+        import urllib.request
+
         import myst_parser.inventory as inv
 
-        self._orig = inv.urlopen
-        inv.urlopen = self._urlopen
+        self._orig = (inv.__dict__.get("urlopen"), urllib.request.urlopen)
+        if "urlopen" in inv.__dict__:
+            inv.urlopen = self._urlopen
+        urllib.request.urlopen = self._urlopen
 
     def uninstall(self):
+        import urllib.request
+
         import myst_parser.inventory as inv
 
         if self._orig is not None:
-            inv.urlopen = self._orig
+            if self._orig[0] is not None:
+                inv.urlopen = self._orig[0]
+            urllib.request.urlopen = self._orig[1]
